@@ -1,8 +1,66 @@
 (* Properties/C05.v — pinned statements only. *)
-From Boreal Require Import Base.Prelude Base.Res Model.Eval Spec.CondSem Proofs.EvalProofs.
+From Boreal Require Import Base.Prelude Base.Res Model.Eval Spec.CondSem Model.EvalCost Model.Scanner
+     Spec.RuleSetSpec Proofs.ScannerProofs.
 
-Theorem C05_placeholder_undefined_rule_does_not_match :
-  forall en c, eval en None [] c = Undef -> eval_rule en c = Ok false.
-Proof. exact eval_rule_undef. Qed.
+(* The scan procedure (global rules first with delayed reporting, namespace disabling, fix-up of
+   invalidated global rules, then ordinary rules with positional references to earlier results)
+   returns exactly the rules the declarative semantics reports — global rules in declaration order,
+   then ordinary rules in declaration order, private rules never, with include_not_matched every
+   non-private rule once with its verdict — for every rule set, every input and every match set.
+   Hypotheses: list API, a configuration in which the string scan is not skipped (the skipping pass is
+   C06's), indices emitted by the compiler in range (wf_scanner; it excludes the recorded finding of a
+   global rule referring to an ordinary rule, see C05_global_refs_ordinary_refuted). *)
+Theorem C05_scan_eq_spec :
+  forall c inp sc,
+    c_cb c = false -> can_noscan c = false ->
+    wf_scanner inp sc = true -> ns_bound (s_nns sc) (s_globals sc) -> ns_bound (s_nns sc) (s_rules sc) ->
+    o_err (run_scan c Never inp sc) = None
+    /\ o_rules (run_scan c Never inp sc) = spec_reported sc inp (c_nm c)
+    /\ o_events (run_scan c Never inp sc) = [].
+Proof. exact run_scan_list_spec. Qed.
 
-Print Assumptions C05_placeholder_undefined_rule_does_not_match.
+(* a namespace is disabled after the global phase iff one of its global rules does not hold *)
+Theorem C05_namespace_disabled_iff :
+  forall c inp gs dis ms, ns_bound (length dis) gs ->
+    forall ns, nth ns (fst (fst (g_fold c inp dis ms gs))) false
+               = nth ns dis false || negb (ns_ok gs (gowns inp ms gs) ns).
+Proof. exact g_fold_disabled. Qed.
+
+(* variables stay aligned with their rules: after the global rules, the remaining matches are those of
+   the ordinary rules, whatever the verdicts *)
+Theorem C05_var_alignment :
+  forall c inp gs dis ms, snd (fst (g_fold c inp dis ms gs)) = skipn (nvars_of gs) ms.
+Proof. exact g_fold_ms_skipn. Qed.
+
+(* the whole result in terms of the pure folds, also when every namespace is disabled *)
+Theorem C05_result_is_spec :
+  forall c inp sc, ns_bound (s_nns sc) (s_globals sc) -> ns_bound (s_nns sc) (s_rules sc) ->
+    scan_result c inp sc = spec_reported sc inp (c_nm c).
+Proof. exact scan_result_spec. Qed.
+
+(* recorded finding C05-global-refs-ordinary (open): the model panics as the code does *)
+Theorem C05_global_refs_ordinary_refuted :
+  kf_global_refs_ordinary kf_scanner = true
+  /\ o_err (run_scan cfg_full Never kf_inputs kf_scanner) = Some EPanic
+  /\ wf_scanner kf_inputs kf_scanner = false.
+Proof. exact global_refs_ordinary_refuted. Qed.
+
+(* non-vacuity: two namespaces, a failing global rule in the first, a private rule referenced in the second *)
+Example C05_example :
+  let g0 := {| r_ns := 0; r_id := 0; r_global := true; r_private := false; r_nvars := 0; r_cond := EBool true |} in
+  let g1 := {| r_ns := 0; r_id := 1; r_global := true; r_private := false; r_nvars := 1; r_cond := EVar (Some 0%nat) |} in
+  let p := {| r_ns := 1; r_id := 2; r_global := false; r_private := true; r_nvars := 0; r_cond := EBool true |} in
+  let r := {| r_ns := 1; r_id := 3; r_global := false; r_private := false; r_nvars := 0; r_cond := ERule 0 |} in
+  let a := {| r_ns := 0; r_id := 4; r_global := false; r_private := false; r_nvars := 0; r_cond := EBool true |} in
+  let sc := {| s_globals := [g0; g1]; s_rules := [p; r; a]; s_nns := 2 |} in
+  let inp := {| i_matches := [[]]; i_ext := []; i_filesize := Some 1; i_mem := Some [97]; i_ac_checks := 0 |} in
+  wf_scanner inp sc = true
+  /\ map er_id (o_rules (run_scan cfg_full Never inp sc)) = [3]
+  /\ map er_id (spec_reported sc inp false) = [3].
+Proof. vm_compute. repeat split. Qed.
+
+Print Assumptions C05_scan_eq_spec.
+Print Assumptions C05_namespace_disabled_iff.
+Print Assumptions C05_var_alignment.
+Print Assumptions C05_result_is_spec.
+Print Assumptions C05_global_refs_ordinary_refuted.
